@@ -554,6 +554,15 @@ def _exec_loop(plan, ctx, world, viol, bump, states_seen) -> int:
         got_t = int(np.asarray(best_model.t))
         stopped_at = hook.observed[-1][0]
         bump("terminated")
+        # the loop may only end because the condition said so, at the reference epoch: a loop that returns
+        # without a final stop()==True decision (e.g. an early `break`) stopped earlier than specified
+        if not hook.decisions[-1] or stopped_at != ref_stop:
+            viol(
+                "stops_early" if stopped_at < ref_stop else "fails_to_stop",
+                {"loop_returned_after_epoch": stopped_at, "last_stop_decision": hook.decisions[-1], "reference_stop_epoch": ref_stop,
+                 "train": train_ep[: stopped_at + 1], "val": val_ep[: stopped_at + 1] if val_steps is not None else None},
+                site + "/loop_exit",
+            )
         if stopped_at == ref_stop:
             want_t = ref_best * nb
             if c["kind"] != "EpochStop" and ref_best == 0:
@@ -652,6 +661,8 @@ def _exec_real(plan, ctx, world, viol, bump, states_seen) -> int:
         bump("constant_history_runs")
     if result is not None:
         bump("terminated")
+        if not hook.decisions[-1]:
+            viol("stops_early", {"loop_returned_after_epoch": obs[-1][0], "last_stop_decision": False, "observed": [x[1:3] for x in obs[1:]]}, site + "/loop_exit")
     for t in hook.types:
         bump("loss_type_" + t)
     return hook.calls
